@@ -203,6 +203,11 @@ static int parse_frame (const char *line, char *func, size_t fl, char *path, siz
   return 1;
 }
 
+static const char *repo_prefix (void) {
+  static const char *p;
+  if (!p) { p = getenv ("VX_REPO_PREFIX"); if (!p || !*p) p = "/repo/"; }
+  return p;
+}
 static void emit_scan (const char *key, const char *msg) { vx_fail (key, "%s", msg); }
 
 static void scan_text (char *buf) {
@@ -244,7 +249,7 @@ static void scan_text (char *buf) {
         frames_started = 1;
         if (path[0] && !strstr (path, "libsanitizer") && !strstr (path, "/vx/vx.c")) {
           if (!first_any[0]) snprintf (first_any, sizeof first_any, "%s:%s", base_name (path), func);
-          if (!frame[0] && !strncmp (path, "/repo/", 6)) snprintf (frame, sizeof frame, "%s:%s", base_name (path), func);
+          if (!frame[0] && !strncmp (path, repo_prefix (), strlen (repo_prefix ()))) snprintf (frame, sizeof frame, "%s:%s", base_name (path), func);
         }
       } else if (frames_started && !stack_done) stack_done = 1;
       if (strstr (line, "SUMMARY: AddressSanitizer") || strstr (line, "SUMMARY: LeakSanitizer")) {
